@@ -1,7 +1,9 @@
 """C04 - an orderly shutdown writes out everything that was accepted."""
+import zlib
+
 from hypothesis import strategies as st
 
-from .. import cachesim, writersim
+from .. import cachesim, core, writersim
 from ..hyp import run_given
 from . import c02, c03
 
@@ -9,15 +11,18 @@ LEVEL = 'exploration'
 RULE = ('Receiving-thread programs of <=6 stores (unique values, old and fresh timestamps), virtual waits '
         '(0.05-3 s, so the writer reaches its idle sleep) and one orderly stop (carbon\'s own '
         'shutdownModifyUpdateSpeed() trigger, then reactor.running=False) at a generated position, run against the real '
-        'writeForever() thread under generated line-granular schedules; 6 strategies x MIN_TIMESTAMP_LAG {0,5} x '
+        'writeForever() thread under generated line-granular schedules, a third of the cases once more in a daemon whose '
+        'storage-schemas reload timer had ended earlier; 6 strategies x MIN_TIMESTAMP_LAG {0,5} x '
         'MAX_UPDATES_PER_SECOND {off,1} x MAX_CREATES_PER_MINUTE {off,1} x MAX_UPDATES_PER_SECOND_ON_SHUTDOWN '
-        '{absent,1000}; thorough enumerates every stop placement (every preemption point of the writer loop x every gap '
-        'between stores) for fixed workloads. Oracle after writeForever() returns: the cache holds no datapoint and '
+        '{absent,1000}; quick also places one preemption at every step of one fixed workload (every prefix, sorted and '
+        'timesorted); thorough enumerates every stop placement (every preemption point of the writer loop x every gap '
+        'between stores, and strided pairs) for fixed workloads under all strategies. Oracle after writeForever() returns: the cache holds no datapoint and '
         'every accepted value was written exactly once or accounted for (C03 oracle). Non-trivial = stop arrives while '
         'the writer is in its idle sleep with data cached, or between a drain and its write, or with timesorted data '
         'younger than the lag; distinct by hash of the case.')
 ASSUMPTIONS = [
   'stop = before-shutdown trigger shutdownModifyUpdateSpeed() followed by reactor.running=False; Twisted then joins the thread pool, modelled by letting the writer thread run to completion',
+  'a periodic reload timer whose function raised once is a LoopingCall that is no longer running (Twisted stops it and logs the failure); the harness puts the timer into that state by stopping it before the history starts',
   'no backend faults here (C03 covers them); a dropped create under create limiting is a legitimate accounted non-write',
   'runs that exceed the step budget are counted as inconclusive, never as violations',
 ]
@@ -90,7 +95,18 @@ def execute(ctx, case):
     nt = True
   if acc['dropped']:
     classes.append('dropped create at shutdown')
+  if getattr(run, 'reload_ended', False):
+    classes.append('stop after a schema reload timer had ended')
   ctx.note(case, nontrivial=nt, classes=classes)
+
+
+def execute_both(ctx, case):
+  """every generated history as it is, and every third one (picked by a checksum of the case, so that the choice is a
+  function of the generated value) once more in a daemon whose storage-schemas reload timer ended earlier in its life
+  (its function raised once)"""
+  execute(ctx, case)
+  if zlib.crc32(core.canon(case).encode('utf-8')) % 3 == 0:
+    execute(ctx, dict(case, reload_ended=True))
 
 
 FIXED = [
@@ -99,29 +115,39 @@ FIXED = [
 ]
 
 
+def enumerate_stops(ctx, jobs, pairs):
+  """the stop after every prefix of a fixed workload x every placement of one preemption (and, strided, of two)"""
+  total = 0
+  for (wi, s, lag, ups) in jobs:
+    wl = FIXED[wi]
+    # every gap between two receiver ops x every preemption point
+    for gap in range(len(wl) + 1):
+      recv = wl[:gap] + [['stop']]
+      base = {'strategy': s, 'lag': lag, 'recv': recv, 'updates_per_second': ups, 'creates_per_minute': None,
+              'shutdown_rate': None, 'precreated': ['a'], 'switches': [], 'first': 0}
+      n_steps = writersim.run_case(base).steps + 10
+      for first in (0, 1):
+        for i in range(1, n_steps):
+          execute(ctx, dict(base, switches=[[i, 1]], first=first))
+          total += 1
+        if not pairs:
+          continue
+        for i in range(1, n_steps, 4):
+          for j in range(i + 1, n_steps, 4):
+            execute(ctx, dict(base, switches=[[i, 1], [j, 1]], first=first))
+            total += 1
+  return total
+
+
 def run(ctx):
   n = 330 if ctx.quick else 1200
   for i, s in enumerate(cachesim.STRATEGIES):
-    run_given(ctx, cases(s), execute, n, salt=80 + i)
-  if not ctx.quick:
+    run_given(ctx, cases(s), execute_both, n, salt=80 + i)
+  if ctx.quick:
+    # windows of one line in the writer loop are hit by a generated schedule only now and then: the quick tier places
+    # one preemption everywhere for one workload under two strategies
+    ctx.extra['stop_placements_enumerated'] = enumerate_stops(ctx, [(1, 'sorted', 0, None), (1, 'timesorted', 5, None)], False)
+  else:
     jobs = [(wi, s, lag, ups) for wi in range(len(FIXED)) for s in cachesim.STRATEGIES for lag in (0, 5) for ups in (None, 1)]
-    total = 0
-    for ji, (wi, s, lag, ups) in enumerate(jobs):
-      if ji % ctx.nshards != (ctx.shard or 0):
-        continue
-      wl = FIXED[wi]
-      # every gap between two receiver ops x every preemption point
-      for gap in range(len(wl) + 1):
-        recv = wl[:gap] + [['stop']]
-        base = {'strategy': s, 'lag': lag, 'recv': recv, 'updates_per_second': ups, 'creates_per_minute': None,
-                'shutdown_rate': None, 'precreated': ['a'], 'switches': [], 'first': 0}
-        n_steps = writersim.run_case(base).steps + 10
-        for first in (0, 1):
-          for i in range(1, n_steps):
-            execute(ctx, dict(base, switches=[[i, 1]], first=first))
-            total += 1
-          for i in range(1, n_steps, 4):
-            for j in range(i + 1, n_steps, 4):
-              execute(ctx, dict(base, switches=[[i, 1], [j, 1]], first=first))
-              total += 1
-    ctx.extra['stop_placements_enumerated'] = total
+    jobs = [j for ji, j in enumerate(jobs) if ji % ctx.nshards == (ctx.shard or 0)]
+    ctx.extra['stop_placements_enumerated'] = enumerate_stops(ctx, jobs, True)
